@@ -205,7 +205,7 @@ func mkGraphBranch[T any](sg *tseg, keys []string) *compose.GraphBranch {
 	for _, k := range keys {
 		ends[k] = true
 	}
-	decide := func(v any) string { return keys[pickTarget(sg.CondRule, v, len(keys))] }
+	decide := func(v any) string { return keys[pickTarget(sg, v)] }
 	if sg.CondStream {
 		return compose.NewStreamGraphBranch(func(ctx context.Context, sr *schema.StreamReader[T]) (string, error) {
 			v, err := drain(sr)
@@ -236,7 +236,7 @@ func graphBranchFor(sg *tseg, keys []string) *compose.GraphBranch {
 }
 
 func mkChainBranch[T any](sg *tseg, keys []string) *compose.ChainBranch {
-	decide := func(v any) string { return keys[pickTarget(sg.CondRule, v, len(keys))] }
+	decide := func(v any) string { return keys[pickTarget(sg, v)] }
 	if sg.CondStream {
 		return compose.NewStreamChainBranch(func(ctx context.Context, sr *schema.StreamReader[T]) (string, error) {
 			v, err := drain(sr)
